@@ -128,6 +128,15 @@ add(
         [c("r1", SA + "/1"), c("r2", SA + "/2"), c("r3", "https://b.test/3")],
     )
 )
+# a pool timeout that has to survive a RE-QUEUE: r2 is first handed the connection r1 is still establishing
+# (HTTP/2 guess), refused when ALPN selects HTTP/1.1, and then waits in the queue with its pool timeout
+add(
+    Scenario(
+        "h1-guess-max1-pto",
+        dict(max_connections=1, http2=True),
+        [c("r1", SA + "/1", gates=("close",)), c("r2", SA + "/2", timeout={"pool": 2}), c("r3", SA + "/3", timeout={"pool": 0})],
+    )
+)
 add(Scenario("h1-tls-max1-AAB", dict(max_connections=1), [c("r1", SA + "/"), c("r2", SA + "/x"), c("r3", "https://b.test/")]))
 add(
     Scenario(
